@@ -106,8 +106,8 @@ scratch_copy (char *str)
   from = Str;
   to = scr_tail + 1;
   end = scratch_end - 2;	/* room for zero and len */
-  if (end > to + 255)
-    end = to + 255;
+  if (end > to + 254)
+    end = to + 254;		/* 254 characters + the zero: the length byte holds at most 255 */
   while (*from && to < end)
     *to++ = *from++;
   if (!(*from))
